@@ -1,5 +1,26 @@
 """C12 (continued).  Shared definitions can be imported from the module contracts_C12 (the file contracts/C12.py while it
-is being loaded)."""
+is being loaded).
+
+The DECISIONS of the resolver loops of pywbem_mock/_resolvermixin.py, function by function.
+
+Vocabulary of _resolve_qualifiers
+  * a qualifier is an object known by reference (class view CIMQualifier below: name, value, type, the three flavors,
+    propagated); `value` is an arbitrary object compared with == / != (abstract value), `type` a string;
+  * _g_side is a ghost field that no code writes: 0 on the qualifiers of the NEW object (and on every copy made for it),
+    1 on the qualifiers of the INHERITED object.  It states that the two dictionaries share no qualifier object (the
+    resolver is handed a private deep copy of the new class - contracts/C11_prov.py, private() - and the superclass as
+    get_class() copies it out of the repository); a copy that is NOT a new object would carry side 1;
+  * a dictionary that the function only READS is an opaque NocaseDict reference; its items() is a trusted stub that
+    returns the ghost list g_items, axiomatised in `requires` as an enumeration of the dictionary (every pair is an entry,
+    the position g_p of the arbitrary key g_q is unique) - the engine offers no handle on the key sequence of a loop over a
+    symbolic map (reported to the coordinator), a list does;
+  * the dictionary that is STORED INTO (new_quals with propagate=True) is a symbolic map str -> qualifier: membership,
+    lookup and store are exact; names that differ only in lexical case are outside the model (engine assumption A-CIMOBJ);
+  * g_q is an ARBITRARY qualifier name, g_j an arbitrary position of g_items: a clause about them holds for every name /
+    every inherited qualifier.
+_init_qualifier is executed from its real source (its contract in contracts/C12.py cannot be applied to an object known by
+reference: a callee contract has no way to name the fields it writes); the qualifier declaration store is the stub of C12.py
+with a new declaration object per call."""
 from pyvc.contract import Contract, Raises, LoopSpec
 from pyvc.values import *   # noqa
 
@@ -7,3 +28,132 @@ CONTRACTS = []
 REFUTED_ON_THE_UNCHANGED_TREE = []      # not loaded: genuine violations of the property (see the notes of each entry)
 CLASS_SPECS = {}
 LEMMAS = []
+
+K = 'pywbem_mock/_resolvermixin.py::ResolverMixin.'
+QREF = ('ref', 'CIMQualifier')
+ITEMS = ListOf(('tuple', 'str', QREF))
+FLAVORS = ('tosubclass', 'overridable', 'translatable')
+CLASS_SPECS.update({
+    'CIMQualifier': {'name': Str, 'value': Ref(), 'type': Str, 'propagated': Opt(Bool), 'tosubclass': Opt(Bool),
+                     'overridable': Opt(Bool), 'translatable': Opt(Bool), '_g_side': Int},
+    'CIMQualifierDeclaration': {'tosubclass': Opt(Bool), 'overridable': Opt(Bool), 'translatable': Opt(Bool)},
+    'NocaseDict': {'__value__': QREF},
+    'CIMClass': {'classname': Str},
+})
+QUAL_FIELDS = ['$fields:CIMQualifier.propagated'] + [f'$fields:CIMQualifier.{f}' for f in FLAVORS]
+
+decl_get = Contract('pywbem_mock/_inmemoryrepository.py::InMemoryObjectStore.get', returns=Ref('CIMQualifierDeclaration'),
+                    raises={'KeyError': Raises()}, trusted=True,
+                    notes='the store returns a qualifier declaration or raises KeyError (C10 proves get() for the object store); '
+                          '_validate_qualifiers has checked before that the declaration exists')
+items_stub = Contract('external::NocaseDict.items', sig=['self'], returns_ghost='g_items', trusted=True,
+                      notes='items() of a NocaseDict that the function does not modify: the ghost list g_items; what is assumed '
+                            'about it is written in the `requires` of each contract')
+copy_stub = Contract('pywbem/_cim_obj.py::CIMQualifier.copy', returns=QREF, trusted=True,
+                     ensures=[('a-new-object', 'fresh(result) and result._g_side == 0'),
+                              ('same-content', 'result.name == self.name and result.value == self.value and result.type == self.type '
+                                               'and result.tosubclass == self.tosubclass and result.overridable == self.overridable '
+                                               'and result.translatable == self.translatable and result.propagated == self.propagated')],
+                     notes='CIMQualifier.copy(): a new object with the same attribute values (C05 proves copy/equality laws of '
+                           'the CIM classes); ghost: the copy belongs to the new object (side 0)')
+
+RQ_PARAMS = {'self': Obj('MainProvider'), 'new_class': Ref('CIMClass'), 'super_class': Opt(Ref('CIMClass')),
+             'obj_name': Str, 'obj_type': Str, 'qualifier_store': Obj('InMemoryObjectStore')}
+
+# ---- _resolve_qualifiers(..., propagate=False): every qualifier the object declares is initialised (not propagated, flavors
+# defaulted, a flavor that was specified is kept); nothing is read from the inherited dictionary
+X = 'g_items[g_j][1]'
+INIT_POSTS = [('declared-qualifier-is-not-propagated', f'{X}.propagated is False'),
+              ('flavors-are-set', f'{X}.tosubclass is not None and {X}.overridable is not None'),
+              ('a-specified-flavor-is-kept',
+               ' and '.join(f'implies(old({X}.{f}) is not None, {X}.{f} == old({X}.{f}))' for f in FLAVORS)),
+              ('value-and-type-untouched', f'{X}.value is old({X}.value) and {X}.type == old({X}.type)')]
+CONTRACTS.append(Contract(
+    K + '_resolve_qualifiers', label='propagate=False',
+    params=dict(RQ_PARAMS, new_quals=Ref('NocaseDict'), inherited_quals=Opt(Ref('NocaseDict')), propagate=Lit(False)),
+    ghosts={'g_items': ITEMS, 'g_j': Int},
+    requires=['0 <= g_j and g_j < len(g_items)'],
+    callees={'_init_qualifier': 'inline', 'get': decl_get, 'items': items_stub},
+    loops={1: LoopSpec(target='(qname, qual)', types={'qname': Str, 'qual': Ref('CIMQualifier')}, modifies=QUAL_FIELDS,
+                       invariant=[('visited-qualifier-is-not-propagated', f'implies(g_j < _i, {X}.propagated is False)'),
+                                  ('visited-qualifier-has-its-flavors',
+                                   f'implies(g_j < _i, {X}.tosubclass is not None and {X}.overridable is not None)'),
+                                  INIT_POSTS[2]])},
+    ensures=INIT_POSTS,
+    raises={'KeyError': Raises()},
+    notes='g_items = new_quals.items(); g_j arbitrary: the clauses hold for every qualifier of the new object.  KeyError: a '
+          'qualifier without declaration (excluded by _validate_qualifiers in _resolve_class)',
+))
+
+# ---- _resolve_qualifiers(..., propagate=True): the DSP0004 decision table, for an ARBITRARY qualifier name g_q.
+#   D0  = the new object declares g_q (on entry)          I  = the inherited object has g_q
+#   TS  = the inherited g_q has ToSubclass (tosubclass is True; None and False are both "restricted" for the code)
+#   OV  = the inherited g_q has EnableOverride (overridable is True)
+# g_items = inherited_quals.items(); g_p = the position of g_q in it (if I); g_j = an arbitrary position.
+I_ = '(g_q in inherited_quals)'
+INH = 'inherited_quals[g_q]'
+D0 = 'old(g_q in new_quals)'
+NQ = 'new_quals[g_q]'
+TS = f'({INH}.tosubclass is True)'
+OV = f'({INH}.overridable is True)'
+Y = 'g_items[g_j][1]'
+SAME = f'{NQ}.value == {INH}.value and {NQ}.type == {INH}.type'
+ENUMERATION = [
+    # every pair of items() is an entry of the dictionary, stored under the qualifier's name; inherited side
+    'forall(lambda j: g_items[j][0] in inherited_quals and g_items[j][1] is inherited_quals[g_items[j][0]] '
+    'and g_items[j][1]._g_side == 1 and g_items[j][1].name == g_items[j][0], 0, len(g_items))',
+    # every key occurs (at position g_p), and only once
+    f'implies({I_}, 0 <= g_p and g_p < len(g_items) and g_items[g_p][0] == g_q)',
+    'forall(lambda j: implies(j != g_p, g_items[j][0] != g_q), 0, len(g_items))',
+    '0 <= g_j and g_j < len(g_items)',
+]
+NEW_SIDE = "forall(lambda k: implies(k in new_quals, new_quals[k]._g_side == 0 and new_quals[k].name == k), 'str')"
+INHERITED_UNTOUCHED = ('inherited-qualifiers-are-not-modified',
+                       ' and '.join(f'{Y}.{f} == old({Y}.{f})' for f in FLAVORS + ('propagated', 'type')) + f' and {Y}.value is old({Y}.value)')
+NEVER_REPLACED = ('a-declared-qualifier-is-never-replaced-by-an-inherited-one',
+                  f'implies({D0}, g_q in new_quals and {NQ} is old({NQ}) and {NQ}.value is old({NQ}.value))')
+
+
+def table(vis):
+    """The state of g_q in new_quals once the inherited g_q has been processed (vis)."""
+    return [
+        ('present-iff-declared-or-inherited-with-ToSubclass', f'implies({vis}, (g_q in new_quals) == ({D0} or {TS}))'),
+        ('undeclared-ToSubclass-qualifier-is-copied-and-marked-propagated',
+         f'implies({vis} and not {D0} and {TS}, {NQ}.propagated is True and {NQ}._g_side == 0 and {SAME})'),
+        ('declared-and-overridable-stays-local',
+         f'implies({vis} and {D0} and {TS} and {OV}, {NQ}.propagated is False)'),
+        ('declared-and-not-overridable-has-the-inherited-value-and-type',
+         f'implies({vis} and {D0} and {TS} and not {OV}, {NQ}.propagated is True and {SAME})'),
+        ('declared-and-restricted-is-accepted-unless-DisableOverride',
+         f'implies({vis} and {D0} and not {TS}, {NQ}.propagated is True and {INH}.overridable is not False)'),
+    ]
+
+
+VIS = f'({I_} and g_p < _i)'
+CONFLICT = ('a-declared-qualifier-conflicts-with-the-inherited-one',
+            'exists(lambda j: g_items[j][0] in new_quals and ('
+            '(g_items[j][1].tosubclass is True and g_items[j][1].overridable is not True and '
+            '(new_quals[g_items[j][0]].value != g_items[j][1].value or new_quals[g_items[j][0]].type != g_items[j][1].type)) or '
+            '(g_items[j][1].tosubclass is not True and g_items[j][1].overridable is False)), 0, len(g_items))')
+CONTRACTS.append(Contract(
+    K + '_resolve_qualifiers', label='propagate=True',
+    params=dict(RQ_PARAMS, new_quals=MapOf('str', QREF), inherited_quals=Ref('NocaseDict'), propagate=Lit(True)),
+    ghosts={'g_items': ITEMS, 'g_q': Str, 'g_p': Int, 'g_j': Int},
+    requires=ENUMERATION + [NEW_SIDE],
+    callees={'_init_qualifier': 'inline', 'get': decl_get, 'items': items_stub, 'copy': copy_stub},
+    loops={2: LoopSpec(target='(qname, qual)', types={'qname': Str, 'qual': Ref('CIMQualifier')}, modifies=QUAL_FIELDS,
+                       invariant=[INHERITED_UNTOUCHED]),
+           3: LoopSpec(target='(inh_qname, inh_qual)', types={'inh_qname': Str, 'inh_qual': Ref('CIMQualifier')},
+                       modifies=QUAL_FIELDS + ['new_quals'],
+                       invariant=[('new-side', NEW_SIDE), INHERITED_UNTOUCHED, NEVER_REPLACED,
+                                  ('not-yet-processed-is-untouched', f'implies(not {VIS}, (g_q in new_quals) == {D0})')]
+                       + table(VIS))},
+    ensures=[('nothing-appears-that-is-neither-declared-nor-inherited', f'implies(not {I_}, (g_q in new_quals) == {D0})'),
+             NEVER_REPLACED, INHERITED_UNTOUCHED] + table(I_),
+    raises={'CIMError': Raises(post=[('always-INVALID_PARAMETER', 'exc.status_code == CIM_ERR_INVALID_PARAMETER'),
+                                     CONFLICT, NEVER_REPLACED, INHERITED_UNTOUCHED]),
+            'KeyError': Raises()},
+    notes='NOT PROVED HERE (needs a handle on the key sequence of loop 2, which iterates the symbolic map): a qualifier '
+          'that is declared and NOT inherited is initialised by _init_qualifier.  Deviations of the code that this '
+          'contract states as they are: see REFUTED_ON_THE_UNCHANGED_TREE',
+))
